@@ -84,6 +84,12 @@ def cases(tier, seed=0):
     for cs in itertools.product(small, repeat=3):
         if cs[0][0] <= cs[1][0] <= cs[2][0]:
             out.append(cs)
+    # four containers from a mini alphabet built around "own-limit kill and pool-level kill in the same tick"
+    mini = [(o, a, p) for o in (0, 1) for a in (16, 32) for p in ("fix16x3", "grow30", "grow20")]
+    if tier == "quick":
+        for cs in itertools.product(mini, repeat=4):
+            if all(cs[i][0] <= cs[i + 1][0] for i in range(3)):
+                out.append(cs)
     if tier == "thorough":
         tiny = [(o, a, p) for o in (0, 1) for a in (16, 32) for p in ("fix16x3", "fix12x1", "grow30", "grow20", "two", "zero3")]
         for cs in itertools.product(tiny, repeat=4):
